@@ -330,11 +330,14 @@ theorem foldl_addVar_frame : ∀ (ns : List Node) (t : St),
     obtain ⟨a, b⟩ := foldl_addVar_frame ns (t.addVar _)
     exact ⟨a, b⟩
 
-/-- **C13, copy clause** (classes without mark guards: Graph, DiGraph, MixedEdgeGraph, PAG): in every
-state satisfying the invariant – hence after every history – `copy()` does not raise and returns a
-graph with the same nodes, the same max_lag and the same edges of every edge type. -/
-theorem copy_same (cfg : Cfg) (hg : cfg.guard = .none) (s : St) (hi : Inv s)
-    (hbase : cfg.mixed = false → s.layers.length ≤ 1) :
+/-- the copy clause, given that the edge loop of `copy()` runs through without raising and ends in the
+closed form `copyLoop` (that is the only place where the mark guard of a class can interfere: the
+unguarded classes discharge `hloop` by `copyLayers_copy`, the CPDAG by `Pw/C13/Cpdag.lean`) -/
+theorem copy_same_of_loop (cfg : Cfg) (s : St) (hi : Inv s)
+    (hloop : ∀ s1 : St, Inv s1 → s1.maxLag = s.maxLag →
+      s1.layers = s.layers.map (fun L => (⟨L.kind, []⟩ : Layer)) → (∀ n, n ∈ s1.nodes ↔ n ∈ s.nodes) →
+      ∃ t, copyLayers cfg 0 (s1, false) s.layers = (t, false) ∧ t.maxLag = s1.maxLag ∧
+        (∀ n, n ∈ t.nodes ↔ n ∈ s1.nodes) ∧ t.layers = copyLoop cfg.mixed s1.maxLag 0 s.layers s1.layers) :
     (copy cfg s).2 = false ∧ Same (copy cfg s).1 s := by
   obtain ⟨hc, hl⟩ := hi
   have hany : (s.nodes.any fun n => decide (s.maxLag < n.2)) = false := by
@@ -365,27 +368,7 @@ theorem copy_same (cfg : Cfg) (hg : cfg.guard = .none) (s : St) (hi : Inv s)
   have hlen1 : s1.layers.length = s.layers.length := by
     show (s.nodes.foldl (fun acc n => acc.addVar n.1) s0).layers.length = _
     rw [hl1]; simp [s0]
-  obtain ⟨t, ht, hmt, hnt, hlt⟩ := copyLayers_copy hg s.layers 0 s1 hi1
-    (fun k hk => by
-      unfold SelOK
-      rw [hlen1]
-      by_cases hm : cfg.mixed = true
-      · simp [hm]; omega
-      · simp only [hm, Bool.false_eq_true, if_false]
-        have := hbase (by simpa using hm)
-        omega)
-    (fun L0 hL0 e he => by
-      obtain ⟨h1, _, h3, _⟩ := hl L0 hL0
-      rw [mem_copyCands] at he
-      obtain ⟨hmem, hfil⟩ := he
-      refine ⟨?_, ?_, ?_⟩
-      · rcases hmem with hmem | ⟨_, hmem⟩
-        · exact (hn1 _).2 (h1 _ hmem).1
-        · exact (hn1 _).2 (by simpa [swap] using (h1 _ hmem).2)
-      · rcases hmem with hmem | ⟨_, hmem⟩
-        · exact (hn1 _).2 (h1 _ hmem).2
-        · exact (hn1 _).2 (by simpa [swap] using (h1 _ hmem).1)
-      · cases hmx : cfg.mixed <;> simp [hmx] at hfil <;> omega)
+  obtain ⟨t, ht, hmt, hnt, hlt⟩ := hloop s1 hi1 hm1 hl1 hn1
   have hcopy : copy cfg s = (t, false) := by
     unfold copy
     simp only [hany, Bool.false_eq_true, if_false]
@@ -410,5 +393,42 @@ theorem copy_same (cfg : Cfg) (hg : cfg.guard = .none) (s : St) (hi : Inv s)
     subst h1
     have hL' := hl L' (List.mem_of_getElem? h2)
     exact ⟨foldl_add_kind _ _ _, fun p => readd_edges hc hL' p⟩
+
+/-- the candidates of the copy loop join nodes of the graph and point forward in time -/
+theorem copyCands_ends {nodes : List Node} {m : Nat} {mixed : Bool} {L0 : Layer}
+    (hL : LayerInv nodes m L0) {e : Edge} (he : e ∈ copyCands mixed L0) :
+    e.1 ∈ nodes ∧ e.2 ∈ nodes ∧ e.2.2 ≤ e.1.2 := by
+  obtain ⟨h1, _, h3, _⟩ := hL
+  rw [mem_copyCands] at he
+  obtain ⟨hmem, hfil⟩ := he
+  refine ⟨?_, ?_, ?_⟩
+  · rcases hmem with hmem | ⟨_, hmem⟩
+    · exact (h1 _ hmem).1
+    · simpa [swap] using (h1 _ hmem).2
+  · rcases hmem with hmem | ⟨_, hmem⟩
+    · exact (h1 _ hmem).2
+    · simpa [swap] using (h1 _ hmem).1
+  · cases mixed <;> simp at hfil <;> omega
+
+/-- **C13, copy clause** (classes without mark guards: Graph, DiGraph, MixedEdgeGraph, PAG): in every
+state satisfying the invariant – hence after every history – `copy()` does not raise and returns a
+graph with the same nodes, the same max_lag and the same edges of every edge type. -/
+theorem copy_same (cfg : Cfg) (hg : cfg.guard = .none) (s : St) (hi : Inv s)
+    (hbase : cfg.mixed = false → s.layers.length ≤ 1) :
+    (copy cfg s).2 = false ∧ Same (copy cfg s).1 s := by
+  refine copy_same_of_loop cfg s hi (fun s1 hi1 _ hl1 hn1 => ?_)
+  have hlen1 : s1.layers.length = s.layers.length := by rw [hl1]; simp
+  exact copyLayers_copy hg s.layers 0 s1 hi1
+    (fun k hk => by
+      unfold SelOK
+      rw [hlen1]
+      by_cases hm : cfg.mixed = true
+      · simp [hm]; omega
+      · simp only [hm, Bool.false_eq_true, if_false]
+        have := hbase (by simpa using hm)
+        omega)
+    (fun L0 hL0 e he => by
+      obtain ⟨a, b, c⟩ := copyCands_ends (hi.2 L0 hL0) he
+      exact ⟨(hn1 _).2 a, (hn1 _).2 b, c⟩)
 
 end C13
